@@ -33,6 +33,13 @@ Definition tpad (m : list nat) (t : tensor) : tensor := mkT (dt t) m (pad m (dat
 Definition tslice (s : list nat) (t : tensor) : tensor := mkT (dt t) s (slice s (dat t)).
 Definition dummy (m : meta) : tensor := mkT (fst m) (snd m) (zeros (snd m)).   (* torch.empty(shape, dtype): content never read *)
 
+(* t.reshape((1,)*k + t.shape) and u.reshape(u.shape[k:]) (u has k leading 1-extents) *)
+Fixpoint wrap (k : nat) (x : td) : td := match k with O => x | S k' => TArr [wrap k' x] end.
+Fixpoint unwrap (k : nat) (x : td) : td :=
+  match k with O => x | S k' => match x with TArr [y] => unwrap k' y | _ => x end end.
+Definition lift (k : nat) (t : tensor) : tensor := mkT (dt t) (repeat 1 k ++ shp t) (wrap k (dat t)).
+Definition unlift (k : nat) (t : tensor) : tensor := mkT (dt t) (skipn k (shp t)) (unwrap k (dat t)).
+
 (* torch.tensor(t.shape) and back *)
 Definition of_shape (s : list nat) : tensor :=
   mkT I64 [List.length s] (TArr (map (fun k => TSc (VZ (Z.of_nat k))) s)).
@@ -151,11 +158,13 @@ Definition bad {A} : P A := Ret (Exc "internal").
 (* ---- variants (DESIGN 2.3): the code as it is (V_code) and the three repairs, each switchable.
    fx_d12: an all-empty list state is delivered as [] (not the ``{}`` placeholder);
    fx_d9 : _sync_dtype_and_shape translates the group rank to a global rank for broadcast src;
-   fx_dst: the named ``rank`` is translated to a global rank for gather / gather_object dst.
+   fx_dst: the named ``rank`` is translated to a global rank for gather / gather_object dst;
+   fx_d10: send_tensors first negotiates the number of dimensions (all_gather of [ndim]); tensors of
+           lower rank travel with leading 1-extents and get their own shape back on receipt.
    The correspondence decides which variant the tree implements. ---- *)
-Record fixes := mkFx { fx_d12 : bool; fx_d9 : bool; fx_dst : bool }.
-Definition V_code : fixes := mkFx false false false.
-Definition V_fixed : fixes := mkFx true true true.
+Record fixes := mkFx { fx_d12 : bool; fx_d9 : bool; fx_dst : bool; fx_d10 : bool }.
+Definition V_code : fixes := mkFx false false false false.
+Definition V_fixed : fixes := mkFx true true true true.
 (* dist.get_global_rank(group, r) *)
 Definition global_rank (g : list nat) (r : nat) : nat := nth r g r.
 
@@ -245,9 +254,25 @@ Definition send_uneven (dst : option nat) (i : nat) (t : tensor) : P (option (li
     | _ => bad
     end).
 
-(* send_tensors (torch.distributed initialised) *)
+(* send_tensors (torch.distributed initialised).
+   V_code: ``if result.ndim == 0`` scalar fast path, else _send_uneven_tensors (D10: ranks whose tensors
+   differ in ndim issue different collectives).
+   fx_d10: ndims = all_gather([result.ndim]); all zero -> scalar fast path; otherwise every tensor is
+   reshaped to (1,)*(max_ndim - ndim) + shape, sent, and entry idx is reshaped back to shape[max_ndim - ndims[idx]:] *)
 Definition send_tensors (dst : option nat) (i : nat) (t : tensor) : P (option (list tensor)) :=
-  match shp t with [] => simple_send dst i t | _ => send_uneven dst i t end.
+  if fx_d10 fx then
+    Op (AllGather (of_shape [ndim t])) (fun r =>
+      match r with
+      | RTens nds =>
+          let ns := map (fun x => hd 0 (to_shape x)) nds in
+          let mx := maxl ns in
+          if Nat.eqb mx 0 then simple_send dst i t
+          else bindr (send_uneven dst i (lift (mx - ndim t) t))
+                     (fun o => Ret (Ok (option_map (map2 (fun n u => unlift (mx - n) u) ns) o)))
+      | RErr e => Ret (Exc e)
+      | _ => bad
+      end)
+  else match shp t with [] => simple_send dst i t | _ => send_uneven dst i t end.
 
 (* _sync_tensor_states *)
 Definition sync_tensor (dst : option nat) (i Wg : nat) (t : tensor) : P (list gs) :=
@@ -406,9 +431,10 @@ Definition val_of_run {A} (f : A -> val) (tr : list (list (option call)) * optio
 
 Definition fixes_of_val (v : val) : fixes :=
   match v with
-  | VL [a; b; c] => mkFx (match as_B a with Some true => true | _ => false end)
-                         (match as_B b with Some true => true | _ => false end)
-                         (match as_B c with Some true => true | _ => false end)
+  | VL [a; b; c; d] => mkFx (match as_B a with Some true => true | _ => false end)
+                            (match as_B b with Some true => true | _ => false end)
+                            (match as_B c with Some true => true | _ => false end)
+                            (match as_B d with Some true => true | _ => false end)
   | _ => V_code end.
 Definition dst_of_val (v : val) : option nat := match v with VZ z => Some (Z.to_nat z) | _ => None end.
 Fixpoint mapi {X Y} (f : nat -> X -> Y) (i : nat) (l : list X) : list Y :=
